@@ -128,7 +128,12 @@ BuildPhase(x) == Simple("phase", x.tol, x.jit, << <<Vc(PhaseTargets[x.ti])>> >>,
 (* ------------------------------------------------------------------ MatrixEntryComparer *)
 EntryTargets == << V(<<2>>, <<G(1), G(2)>>, 1), V(<<3>>, <<G(1), GZ, G(-2)>>, 1), V(<<4>>, <<G(2), G(-1), GZ, G(3)>>, 1),
                    V(<<2, 2>>, <<G(1), G(2), G(3), GZ>>, 1), V(<<2, 3>>, <<G(1), GZ, G(-1), G(2), I, G(4)>>, 1),
-                   V(<<2>>, <<G(3), G(-1)>>, 2), V(<<3, 3>>, <<G(1), G(2), G(3), G(4), G(5), G(6), G(7), G(8), GZ>>, 1) >>
+                   V(<<2>>, <<G(3), G(-1)>>, 2), V(<<3, 3>>, <<G(1), G(2), G(3), G(4), G(5), G(6), G(7), G(8), GZ>>, 1),
+                   \* entries of very different magnitude and exact zeros: under a percentage tolerance every entry is judged
+                   \* against ITS OWN size -- a wrong small (or zero) entry is invisible in the norm of the whole array
+                   V(<<3>>, <<G(300000), GZ, G(5)>>, 1), V(<<2, 2>>, <<G(2), G(-200000), GZ, G(1)>>, 1) >>
+\* (the huge entries are never the wrong ones: their squares would leave TLC's integers, and they are not the point)
+Huge(z) == Abs(z[1]) >= 1000 \/ Abs(z[2]) >= 1000
 EntryModes == {Flat(Zero), Flat(<<1, 2>>), Flat(One), Proportional} \cup (IF Thorough THEN {Flat(<<1, 4>>), Flat(<<3, 10>>)} ELSE {})
 EntrySeeds == {[kind |-> "seed", ti |-> i, smode |-> sm] : i \in 1..Len(EntryTargets), sm \in {"const", "varall", "varsome"}}
 EntryCases(s) == LET n == Len(EntryTargets[s.ti].ent) IN
@@ -136,6 +141,7 @@ EntryCases(s) == LET n == Len(EntryTargets[s.ti].ent) IN
                          via : {"option", "explicit"}, jit : {0, 1}, tol : {"abs", "pct", "zero"}] :
                     /\ (n > 6 /\ ~Thorough) => (Cardinality(x.wrong) <= 1 \/ Cardinality(x.wrong) >= n - 1)
                     /\ (~Thorough /\ x.smode # "const") => x.via = "explicit"
+                    /\ \A k \in x.wrong : ~Huge(EntryTargets[s.ti].ent[k])
                     /\ x.jit # 0 => (x.tol = "abs" /\ x.smode = "const")}
 Xs == <<1, 2, 3>>
 EntryP(x) == LET T == EntryTargets[x.ti] IN
@@ -189,7 +195,9 @@ ShapeTargets == <<
   [kind |-> "phase", P |-> << <<Vc(<<G(1), G(1)>>)>> >>],
   [kind |-> "linear", P |-> << <<Vc(<<G(1), G(1)>>)>>, <<Vc(<<G(2), G(3)>>)>>, <<Vc(<<G(4), G(7)>>)>> >>] >>
 Submitted == << Sc(G(3)), Vc(<<G(1), G(1)>>), Vc(<<G(1), G(1), GZ>>), Vc(<<G(1), G(1), GZ, G(2)>>), Mat22,
-                Mt(2, 3, <<G(1), G(2), G(3), G(4), G(5), G(6)>>), Mt(3, 2, <<G(1), G(2), G(3), G(4), G(5), G(6)>>) >>
+                Mt(2, 3, <<G(1), G(2), G(3), G(4), G(5), G(6)>>), Mt(3, 2, <<G(1), G(2), G(3), G(4), G(5), G(6)>>),
+                \* wrongly shaped submissions that are ZERO: still a shape mismatch, not "a zero vector is wrong"
+                Sc(GZ), Vc(<<GZ, GZ>>), Vc(<<GZ, GZ, GZ>>), Vc(<<GZ, GZ, GZ, GZ>>), Mt(2, 2, <<GZ, GZ, GZ, GZ>>) >>
 Policies == [raised : BOOLEAN, detail : {"none", "type", "shape"}, suppress : BOOLEAN, shapeErrors : BOOLEAN]
 ShapeSeeds == {[kind |-> "seed", ti |-> i] : i \in 1..Len(ShapeTargets)}
 ShapeCases(s) == [kind : {"shape"}, ti : {s.ti}, gi : 0..Len(Submitted), policy : Policies, tol : {"abs"}]
